@@ -206,6 +206,12 @@ func (rn *runner) hread(actor string, rd Read, quiescent bool) *simcore.Violatio
 			} else if n, _ := fmt.Sscanf(o.what, "slot %d/%d", &ai, &si); n == 2 {
 				who = rn.m.whoHasSlot(ai, si, o.got)
 			}
+			if rn.recoverWhileIndexing {
+				rn.mu.Unlock()
+				v := rn.keyed("historic-wrong-value", "indexer-shorten-during-initial-indexing", true, "%s: %s = %x, that state holds %x (value of: %s); a Recover ran during the initial index run and left index entries of the reverted branch behind", where, o.what, o.got, o.want, who)
+				rn.mu.Lock()
+				return v
+			}
 			return simcore.Violf("historic-wrong-value", "%s: %s = %x, that state holds %x (the returned value belongs to: %s)", where, o.what, o.got, o.want, who)
 		}
 		sum = sum.Bytes(o.got).String("|")
@@ -245,6 +251,10 @@ func (rn *runner) waitIndexers() *simcore.Violation {
 			}
 		}
 		time.Sleep(5 * time.Second) // virtual
+	}
+	if rn.recoverWhileIndexing {
+		return rn.keyed("indexer-never-finishes", "indexer-shorten-during-initial-indexing", true,
+			"the history indexer never finishes its initial run after a Recover that happened while it was running: when the reverted history had been indexed already, indexIniter.run only lowers its target; the index metadata stays one ahead of the target, checkDone() can never become true again and the stale index entries of the reverted history remain")
 	}
 	return simcore.Violf("indexer-never-finishes", "the history indexer did not finish its initial indexing within %d virtual seconds after the workload paused", 400*5)
 }
